@@ -580,14 +580,15 @@ func c16Check(c *Ctx, kind string, k c16Cfg, ops []c16Op, tag string) []c16Step 
 // from a fresh one (-1: none).  Only the first one counts: later calls run on a state that
 // already differs.  Calls that are not compared:
 //   - a busy loop ("spin") that the fresh instance runs into as well is a different defect;
-//   - an encoder is reset by OnBeginDocument (together with PrepareToEncode): an event stream
-//     that does not start with it never reset the instance, so the property says nothing about it.
+//   - the CTE encoder is reset by OnBeginDocument (EncoderContext.Begin): an event stream that
+//     does not start with it never reset the instance, so the property says nothing about it
+//     (the CBE encoder is reset by PrepareToEncode, which every call performs).
 func c16FirstDivergence(kind string, ops []c16Op, steps []c16Step) int {
 	for i, st := range steps {
 		if st.Fresh == "skip" || st.Fresh == "spin" {
 			continue
 		}
-		if (kind == "cbe-encoder" || kind == "cte-encoder") && (len(ops[i].Evs) == 0 || ops[i].Evs[0].K != "bd") {
+		if kind == "cte-encoder" && (len(ops[i].Evs) == 0 || ops[i].Evs[0].K != "bd") {
 			continue
 		}
 		if st.Reused != st.Fresh {
@@ -875,7 +876,9 @@ func runC16(c *Ctx) {
 	}
 
 	// 0a. directed encoder histories: a document aborted right after an array begin, then complete documents
-	// (first, so that the recorded witnesses of a failure class are the small ones)
+	// (first, so that the recorded witnesses of a failure class are the small ones).  Pinned witness of the
+	// CBE encoder defect repaired by "fix: a reused CBE encoder forgets the array state of an aborted
+	// document": [bd v l ab:uint8] then [bd v null ed] gave 81 00 7d 93 instead of 81 00 7d.
 	if only == "" || only == "cbe-encoder" || only == "cte-encoder" {
 		for _, t := range []events.ArrayType{events.ArrayTypeUint8, events.ArrayTypeString, events.ArrayTypeUint16, events.ArrayTypeBit, events.ArrayTypeResourceID} {
 			for _, second := range [][]Ev{
